@@ -180,6 +180,12 @@ const GENERIC_SNIPPETS: &[[&str; 3]] = &[
         "gvdiv :: fn v: (float, float), d -> (float, float) do\n    v / d\nend\n\ngvhalf :: fn v, k: float ->\n    v / k\nend\n\ngvmix :: fn v, d: (float, float) ->\n    (1.0, 2.0) / d + v * d - d\nend\n\ngvlt :: fn v: (float, str), d -> bool do\n    v < d\nend\n\ngvcat :: fn v, d: (int, str) ->\n    v + d\nend\n\nguse5 :: fn do\n    print(gvdiv((1.0, 2.0), (2.0, 4.0)))\n    print(gvhalf((1.0, 2.0), 2.0))\n    print(gvmix((1.0, 2.0), (2.0, 4.0)))\n    print(gvlt((1.0, \"a\"), (1.0, \"b\")))\n    print(gvcat((1, \"a\"), (2, \"b\")))\nend\n",
         "gvdiv :: fn v, d ->\n    v / d\nend\n\ngvhalf :: fn v, k ->\n    v / k\nend\n\ngvmix :: fn v, d ->\n    (1.0, 2.0) / d + v * d - d\nend\n\ngvlt :: fn v, d ->\n    v < d\nend\n\ngvcat :: fn v, d ->\n    v + d\nend\n\nguse5 :: fn do\n    print(gvdiv((1.0, 2.0), (2.0, 4.0)))\n    print(gvhalf((1.0, 2.0), 2.0))\n    print(gvmix((1.0, 2.0), (2.0, 4.0)))\n    print(gvlt((1.0, \"a\"), (1.0, \"b\")))\n    print(gvcat((1, \"a\"), (2, \"b\")))\nend\n",
     ],
+    // comparisons between an int and a float (allowed for < and >) with the operand annotations written / partly written / erased
+    [
+        "gclt :: fn a: float, b: int -> bool do\n    a < b\nend\n\ngcgt :: fn a: int, b: float -> bool do\n    a > b\nend\n\ngcfilt :: fn xs: [int] -> [int] do\n    filter(xs, pu x: int -> bool do\n        x < 2.5\n    end)\nend\n\ngcmix :: fn a: int, b: float, s: str -> bool do\n    (a < b) and (s < \"m\")\nend\n\nguse6 :: fn -> void do\n    print(gclt(2.5, 1))\n    print(gcgt(1, 2.5))\n    print(gcfilt([1, 2, 3, 4]))\n    print(gcmix(1, 2.5, \"a\"))\nend\n",
+        "gclt :: fn a: float, b -> bool do\n    a < b\nend\n\ngcgt :: fn a, b: float ->\n    a > b\nend\n\ngcfilt :: fn xs: [int] ->\n    filter(xs, pu x ->\n        x < 2.5\n    end)\nend\n\ngcmix :: fn a, b: float, s ->\n    (a < b) and (s < \"m\")\nend\n\nguse6 :: fn do\n    print(gclt(2.5, 1))\n    print(gcgt(1, 2.5))\n    print(gcfilt([1, 2, 3, 4]))\n    print(gcmix(1, 2.5, \"a\"))\nend\n",
+        "gclt :: fn a, b ->\n    a < b\nend\n\ngcgt :: fn a, b ->\n    a > b\nend\n\ngcfilt :: fn xs ->\n    filter(xs, pu x ->\n        x < 2.5\n    end)\nend\n\ngcmix :: fn a, b, s ->\n    (a < b) and (s < \"m\")\nend\n\nguse6 :: fn do\n    print(gclt(2.5, 1))\n    print(gcgt(1, 2.5))\n    print(gcfilt([1, 2, 3, 4]))\n    print(gcmix(1, 2.5, \"a\"))\nend\n",
+    ],
 ];
 
 // ------------------------------------------------------------------ C08
@@ -319,6 +325,17 @@ const TRAILING_KINDS: &[(&str, &str)] = &[
     ("int", "a * b - a"),
 ];
 
+/// the same nested calls written plainly and as unparenthesised arrow chains (2, 3 and 4 arrows)
+fn chain_snippet(arrow_form: bool) -> String {
+    let head = "\nzc_sub :: fn a: int, b: int -> int do\n    a - b\nend\n\nzc_mul :: fn a: int, b: int -> int do\n    a * b\nend\n\nzc_use :: fn x: int do\n";
+    let body = if arrow_form {
+        "    print(x -> zc_sub(1) -> zc_mul(2) -> zc_sub(3))\n    print(x -> zc_sub(1) -> zc_mul(2) -> zc_sub(3) -> zc_mul(4))\n    print(x -> zc_sub(1) -> zc_sub(2))\n    k :: (x -> zc_sub(1) -> zc_mul(2) -> zc_sub(3)) + 1\n    print(k)\n"
+    } else {
+        "    print(zc_sub(zc_mul(zc_sub(x, 1), 2), 3))\n    print(zc_mul(zc_sub(zc_mul(zc_sub(x, 1), 2), 3), 4))\n    print(zc_sub(zc_sub(x, 1), 2))\n    k :: zc_sub(zc_mul(zc_sub(x, 1), 2), 3) + 1\n    print(k)\n"
+    };
+    format!("{}{}end\n", head, body)
+}
+
 fn trailing_snippet(ret_form: bool) -> String {
     let mut t = String::from("\nZtB :: blob {\n    f: int,\n}\n\nzt_id :: fn a: int -> int do\n    a\nend\n\n");
     for (i, (ty, e)) in TRAILING_KINDS.iter().enumerate() {
@@ -378,6 +395,7 @@ impl Check for C14 {
         // the trailing-expression / `ret` pairs, alternating over the renderings
         for (k, v) in vs.iter_mut().enumerate() {
             v.text.push_str(&trailing_snippet(k % 2 == 1));
+            v.text.push_str(&chain_snippet((k / 2) % 2 == 1));
             v.label.push_str(if k % 2 == 1 { " + snippet functions ending in `ret e`" } else { " + snippet functions ending in a trailing `e`" });
         }
         st.add("trailing_vs_ret_functions_compared", TRAILING_KINDS.len() as u64);
